@@ -489,18 +489,28 @@ theorem defaultKrn_gas_oil (k : Consts K) (swco : K) (krnOW krwGO : K → K) (sw
 are running minima — the per-cell hysteresis state is the template-level state of C15's
 `hyst_invariant`, fed with `1 - So` (oil-water) and `1 - Swl - Sg` (gas-oil). -/
 theorem updateCell_mdc (c : Cell K) (st : CellState K) (s : Sat K) (h : c.ow.enabled = true) :
-    (updateCell c st s).ow.mdc = min st.ow.mdc (1 - clamp01 s.so) ∧
-    (updateCell c st s).go.mdc = min st.go.mdc (1 - c.swl - clamp01 s.sg) := by
+    (updateCell c st s).ow.c.mdc = min st.ow.c.mdc (1 - clamp01 s.so) ∧
+    (updateCell c st s).go.c.mdc = min st.go.c.mdc (1 - c.swl - clamp01 s.sg) ∧
+    (updateCell c st s).ow.k.mdc = min st.ow.k.mdc (1 - clamp01 s.so) ∧
+    (updateCell c st s).go.k.mdc = min st.go.k.mdc (1 - c.swl - clamp01 s.sg) := by
   unfold updateCell
-  simp only [h, not_true_eq_false, if_false]
-  constructor
+  simp only [h, not_true_eq_false, if_false, HystLaw.update]
+  refine ⟨?_, ?_, ?_, ?_⟩
   · unfold Hyst.update
-    by_cases hlt : 1 - clamp01 s.so < st.ow.mdc
+    by_cases hlt : 1 - clamp01 s.so < st.ow.c.mdc
     · simp [hlt, Hyst.refresh, min_eq_right (le_of_lt hlt)]
     · simp [hlt, min_eq_left (not_lt.mp hlt)]
   · unfold Hyst.update
-    by_cases hlt : 1 - c.swl - clamp01 s.sg < st.go.mdc
+    by_cases hlt : 1 - c.swl - clamp01 s.sg < st.go.c.mdc
     · simp [hlt, Hyst.refresh, min_eq_right (le_of_lt hlt)]
+    · simp [hlt, min_eq_left (not_lt.mp hlt)]
+  · unfold Killough.update
+    by_cases hlt : 1 - clamp01 s.so < st.ow.k.mdc
+    · simp [hlt, Killough.refresh, min_eq_right (le_of_lt hlt)]
+    · simp [hlt, min_eq_left (not_lt.mp hlt)]
+  · unfold Killough.update
+    by_cases hlt : 1 - c.swl - clamp01 s.sg < st.go.k.mdc
+    · simp [hlt, Killough.refresh, min_eq_right (le_of_lt hlt)]
     · simp [hlt, min_eq_left (not_lt.mp hlt)]
 
 theorem clamp01_range (x : K) : 0 ≤ clamp01 x ∧ clamp01 x ≤ 1 := by
